@@ -81,6 +81,8 @@ type World struct {
 	Peers    []*Peer
 	Trackers []*ScriptTracker
 	WebSeeds []*WebSeed
+	HTTPTrackers []*HTTPTrackerSrv
+	UDPTrackers  []*UDPTrackerSrv
 	Step     int
 	Labels   []string
 	Fails    []Failure
@@ -162,6 +164,11 @@ func (w *World) Quiesce() {
 			p.Process()
 			if p.wrote {
 				again = true // an automatic reply (handshake answer) was written: let the client read it
+			}
+		}
+		for _, ts := range w.UDPTrackers {
+			if ts.Process() {
+				again = true
 			}
 		}
 		if !again {
@@ -619,6 +626,7 @@ func (w *World) teardown() {
 	if w.S == nil {
 		return
 	}
+	w.S.VerifFakeDHT(false) // no live DHT node exists in the lab: Close must not try to stop one
 	done := make(chan struct{})
 	go func() { w.S.Close(); close(done) }()
 	for i := 0; i < 10000; i++ {
@@ -627,6 +635,9 @@ func (w *World) teardown() {
 		case <-done:
 			for _, ws := range w.WebSeeds {
 				ws.CloseAll()
+			}
+			for _, ts := range w.HTTPTrackers {
+				ts.CloseAll()
 			}
 			// Time stops when the bubble's root returns: let every pending timer (context deadlines of
 			// stop announcers, idle-connection timers) fire first so that their goroutines can exit.
